@@ -67,12 +67,8 @@ def add_months(d, n):
 
 
 def next_clock_strict(ts, hour, minute):
-    """first datetime with that hh:mm strictly after ts (ts compared with its
-    seconds and microseconds: 20:00 asked at 20:00:00.000000 rolls over, asked
-    at 19:59:59.9 does not)"""
-    c = ts.replace(hour=hour, minute=minute, second=ts.second, microsecond=ts.microsecond)
-    # the library adds hour/minute to ts keeping seconds; "strictly after the
-    # reference minute" == candidate minute > reference minute
+    """first datetime with that hh:mm strictly after the reference *minute*
+    (asked at 20:00:30 for 20:00 -> tomorrow; asked at 19:59:59 -> today)"""
     c = datetime(ts.year, ts.month, ts.day, hour, minute)
     ref = datetime(ts.year, ts.month, ts.day, ts.hour, ts.minute)
     if c <= ref:
